@@ -74,6 +74,7 @@ type FuncVC struct {
 
 	decls    []string
 	declared map[string]Sort
+	typeIDs  map[string]int // dynamic type identities (dyntype.go)
 	assumps  []string
 	obls     []*Obligation
 	counter  map[string]int
